@@ -9,7 +9,7 @@ use serde::{Deserialize, Serialize};
 
 use crate::engine::data_types::*;
 use crate::mem_store::*;
-use crate::stringpack::StringPackerIterator;
+use crate::stringpack::{PackedBytesIterator, PackedStrings, StringPackerIterator};
 
 #[derive(Clone, Serialize, Deserialize)]
 pub struct Column {
@@ -32,9 +32,9 @@ pub trait DataSource: fmt::Debug + Sync + Send {
         decode(&self.codec(), &self.data_sections())
     }
 
-    /// A copy of the column with its first data section decompressed, if the column is held
-    /// LZ4/Pco compressed. `decode` hands out strings that borrow from the column's sections, which
-    /// only works on the decompressed bytes.
+    /// A copy of the column with its first data section decompressed (if the column is held
+    /// LZ4/Pco compressed) and hex-packed strings re-packed as plain strings. `decode` hands out
+    /// strings that borrow from the column's sections, which only works on such a copy.
     fn lz4_or_pco_decoded(&self) -> Option<Column> {
         None
     }
@@ -89,14 +89,24 @@ impl DataSource for Column {
         Type::new(self.basic_type(), self.codec())
     }
     fn lz4_or_pco_decoded(&self) -> Option<Column> {
-        match self.codec.ops().first() {
-            Some(CodecOp::LZ4(..)) | Some(CodecOp::Pco(..)) => {
-                let mut column = self.clone();
-                column.lz4_or_pco_decode();
-                Some(column)
-            }
-            _ => None,
+        let compressed = matches!(
+            self.codec.ops().first(),
+            Some(CodecOp::LZ4(..)) | Some(CodecOp::Pco(..))
+        );
+        let hexpacked = self
+            .codec
+            .ops()
+            .iter()
+            .any(|op| matches!(op, CodecOp::UnhexpackStrings(..)));
+        if !compressed && !hexpacked {
+            return None;
         }
+        let mut column = self.clone();
+        column.lz4_or_pco_decode();
+        if hexpacked {
+            column.unhexpack();
+        }
+        Some(column)
     }
 }
 
@@ -158,6 +168,41 @@ impl Column {
             self.data[0] = self.data[0].pco_decode(decoded_type, length);
             trace!("lz4_decode after: {:?}", self);
         }
+    }
+
+    /// Re-packs a hex-packed string column as plain packed strings. `decode` hands out strings
+    /// that borrow from the data sections, so the hex strings have to exist there first.
+    fn unhexpack(&mut self) {
+        let mut uppercase = false;
+        let ops = self
+            .codec
+            .ops()
+            .iter()
+            .map(|&op| match op {
+                CodecOp::UnhexpackStrings(upper, _) => {
+                    uppercase = upper;
+                    CodecOp::UnpackStrings
+                }
+                op => op,
+            })
+            .collect::<Vec<_>>();
+        let strings = match &self.data[0] {
+            DataSection::U8(packed) => PackedBytesIterator::from_slice(packed)
+                .map(|bytes| {
+                    if uppercase {
+                        hex::encode_upper(bytes)
+                    } else {
+                        hex::encode(bytes)
+                    }
+                })
+                .collect::<Vec<_>>(),
+            section => panic!("Hex-packed strings in {:?} section", section.encoding_type()),
+        };
+        let repacked = PackedStrings::from_iterator(strings.iter().map(|s| s.as_str()));
+        self.data[0] = DataSection::U8(repacked.into_vec());
+        let mut codec = Codec::new(ops, self.codec.section_types().to_vec());
+        codec.set_column_name(&self.name);
+        self.codec = codec;
     }
 
     pub fn name(&self) -> &str {
